@@ -24,6 +24,17 @@ package main
 //	make(map[K]V[, hint])        GEMakeMap (hint: a literal or len(field path), dropped)
 //
 // For the wrappers (ext unset) these stay GSUnknown/GEUnknown + problem, as before.
+//
+// loaderfuncs.go (E5) switches on a third fragment (ld) on top of the second:
+//
+//	e[i]                             GEIndex e i  (a panicking index, not the comma-ok form)
+//	var a, b T                       GSVar ["a"; "b"] "T"  (no initialiser: the zero value of T)
+//	for k, v = range xs { B }        GSRangeSet "k" "v" xs B  (assigns existing variables; a return
+//	                                 inside B leaves the function, in both range forms)
+//	func f() (a T, b U) { .. }       GSResults [("a", "T"); ("b", "U")] as the first statement of the body
+//	return (no operands)             GSReturn [] - in a function with named results: their current values
+//
+// Named results together with defer stay a problem (a deferred call could change what is returned).
 
 import (
 	"fmt"
@@ -53,6 +64,7 @@ type wrapGen struct {
 	pkgs   map[string]bool // names under which the file imports packages
 	locals map[string]bool // receiver, parameters and every name declared in the body
 	ext    bool            // the second fragment (setfuncs.go) is translated too; false for the wrappers
+	ld     bool            // the third fragment (loaderfuncs.go) on top of the second
 }
 
 func (g *wrapGen) src(n ast.Node) string {
@@ -192,6 +204,11 @@ func (g *wrapGen) expr(x ast.Expr) string {
 			}
 		}
 		return g.unknownExpr(x, "operator")
+	case *ast.IndexExpr:
+		if g.ld {
+			return "(GEIndex " + g.expr(t.X) + " " + g.expr(t.Index) + ")"
+		}
+		return g.unknownExpr(x, fmt.Sprintf("%T", x))
 	case *ast.CallExpr:
 		if t.Ellipsis != token.NoPos {
 			return g.unknownExpr(x, "variadic call")
@@ -353,6 +370,21 @@ func (g *wrapGen) stmt(s ast.Stmt, indent string) string {
 			return "GSExpr " + g.expr(t.X)
 		}
 		return g.unknownStmt(s, "expression statement that is not a call")
+	case *ast.DeclStmt:
+		if !g.ld {
+			break
+		}
+		// var a, b T   (one specification, a type, no initialiser)
+		if gd, ok := t.Decl.(*ast.GenDecl); ok && gd.Tok == token.VAR && len(gd.Specs) == 1 {
+			if vs, ok := gd.Specs[0].(*ast.ValueSpec); ok && vs.Type != nil && len(vs.Values) == 0 {
+				var names []string
+				for _, id := range vs.Names {
+					names = append(names, id.Name)
+				}
+				return "GSVar " + coqStringList(names) + " " + coqString(g.src(vs.Type))
+			}
+		}
+		return g.unknownStmt(s, "declaration other than var names T")
 	case *ast.DeferStmt:
 		if !g.ext {
 			break
@@ -370,8 +402,12 @@ func (g *wrapGen) stmt(s ast.Stmt, indent string) string {
 		}
 		// for k, v := range coll { body }; break/continue/goto in the body are not in the fragment
 		// (they become GSUnknown there)
+		con := "GSRange"
 		if t.Tok != token.DEFINE && !(t.Key == nil && t.Value == nil) {
-			return g.unknownStmt(s, "range that assigns to existing variables")
+			if !(g.ld && t.Tok == token.ASSIGN) {
+				return g.unknownStmt(s, "range that assigns to existing variables")
+			}
+			con = "GSRangeSet"
 		}
 		names := []string{"_", "_"}
 		for i, e := range []ast.Expr{t.Key, t.Value} {
@@ -384,7 +420,7 @@ func (g *wrapGen) stmt(s ast.Stmt, indent string) string {
 			}
 			names[i] = id.Name
 		}
-		return "GSRange " + coqString(names[0]) + " " + coqString(names[1]) + " " + g.expr(t.X) + "\n" +
+		return con + " " + coqString(names[0]) + " " + coqString(names[1]) + " " + g.expr(t.X) + "\n" +
 			indent + "    " + g.block(t.Body.List, indent+"    ")
 	}
 	return g.unknownStmt(s, fmt.Sprintf("%T", s))
@@ -452,12 +488,17 @@ func (p *pkgInfo) genWrapper(recv, name string) (string, bool) {
 
 // genFunc translates method recv.name into a Coq definition `ident`; ext selects the second fragment.
 func (p *pkgInfo) genFunc(who, recv, name, ident string, ext bool) (string, bool) {
+	return p.genFuncFrag(who, recv, name, ident, ext, false)
+}
+
+// genFuncFrag: ld selects the third fragment (on top of the second).
+func (p *pkgInfo) genFuncFrag(who, recv, name, ident string, ext, ld bool) (string, bool) {
 	fd := p.findMethod(recv, name)
 	if fd == nil || fd.Body == nil {
 		problem("%s: method %s.%s not found", who, recv, name)
 		return fmt.Sprintf("(* %s.%s: NOT FOUND in the source *)\n\n", recv, name), false
 	}
-	g := &wrapGen{p: p, who: who, fn: recv + "." + name, pkgs: importNames(p.fileOf(fd)), locals: map[string]bool{}, ext: ext}
+	g := &wrapGen{p: p, who: who, fn: recv + "." + name, pkgs: importNames(p.fileOf(fd)), locals: map[string]bool{}, ext: ext, ld: ld}
 	recvName := "_"
 	if len(fd.Recv.List[0].Names) > 0 {
 		recvName = fd.Recv.List[0].Names[0].Name
@@ -476,10 +517,33 @@ func (p *pkgInfo) genFunc(who, recv, name, ident string, ext bool) (string, bool
 		}
 	}
 	results := fieldNames(fd.Type.Results)
-	for _, n := range results {
-		if n != "_" {
-			// named results can be assigned and returned by a bare return: not in the fragment
-			problem("%s: %s: named result %s", who, g.fn, n)
+	named := ""
+	if ld && fd.Type.Results != nil && len(results) > 0 && len(fd.Type.Results.List[0].Names) > 0 {
+		// third fragment: the named results are variables of the function's scope, declared with
+		// their zero values by a first statement GSResults; a bare return returns their values
+		var decls []string
+		for _, f := range fd.Type.Results.List {
+			for _, n := range f.Names {
+				decls = append(decls, "("+coqString(n.Name)+", "+coqString(g.src(f.Type))+")")
+				g.locals[n.Name] = true
+			}
+		}
+		named = "GSResults [" + strings.Join(decls, "; ") + "]"
+		ast.Inspect(fd.Body, func(n ast.Node) bool {
+			switch n.(type) {
+			case *ast.DeferStmt:
+				problem("%s: %s: named results together with defer", who, g.fn)
+			case *ast.FuncLit:
+				return false
+			}
+			return true
+		})
+	} else {
+		for _, n := range results {
+			if n != "_" {
+				// named results can be assigned and returned by a bare return: not in the fragment
+				problem("%s: %s: named result %s", who, g.fn, n)
+			}
 		}
 	}
 	ast.Inspect(fd.Body, func(n ast.Node) bool {
@@ -519,7 +583,15 @@ func (p *pkgInfo) genFunc(who, recv, name, ident string, ext bool) (string, bool
 	sb.WriteString("Definition " + ident + " : gfunc :=\n")
 	sb.WriteString(fmt.Sprintf("  mkGF (Some (%s, %s)) %s %s %d\n", coqString(recvName), coqString(recv), coqString(name),
 		coqStringList(params), len(results)))
-	sb.WriteString("  " + g.block(fd.Body.List, "  ") + ".\n\n")
+	body := g.block(fd.Body.List, "  ")
+	if named != "" {
+		if len(fd.Body.List) == 0 {
+			body = "[ " + named + " ]"
+		} else {
+			body = "[ " + named + ";\n    " + strings.TrimPrefix(body, "[ ")
+		}
+	}
+	sb.WriteString("  " + body + ".\n\n")
 	return sb.String(), true
 }
 
